@@ -31,7 +31,7 @@ CHECKS["C05"] = dict(
 
 CHECKS["C01"] = dict(
    technique="stateless depth-first search over operation histories on live objects (explicit-state exploration, no state merging); differential invariant re-checked on every member after every step",
-   text="Every history of up to 3 (quick) / 4 (thorough) steps over 40 operations, each step applied to any member of the growing family (frames, groupers, group frames, typed views), from 4 initial frames including one built on caller-owned slices. After every step every member's full observation (Len, names, types, ColumnTypeMap, every cell through typed views, Err, Grouper.QFrames, View.ItemAt) and every argument object is compared with its observation at creation.",
+   text="Every history of up to 3 (quick) / 4 (thorough) steps over some 60 operations, each step applied to any member of the growing family (frames, groupers, group frames, typed views), from 4 initial frames including one built on caller-owned slices. After every step every member's full observation (Len, names, types, ColumnTypeMap, every cell through typed views, Err, Grouper.QFrames, View.ItemAt) and every argument object is compared with its observation at creation.",
    note="Differential oracle, no model. Sound reuse of parent objects by children; a failure is replayed from scratch (or, if it only reproduces with sibling steps, with the complete search history) before it is reported.",
    design="5/C01")
 
@@ -160,7 +160,7 @@ def main():
         }],
         "checks": checks,
         "not_applicable": na,
-        "notes": "All checks rebuild the harness against /repo's working tree (go.mod replace + -overlay) before running. Exit 0 = held on everything explored; exit 1 + VIOLATION line = violation; exit 2 = harness error.",
+        "notes": "All checks rebuild the harness against /repo's working tree (go.mod replace + -overlay) before running. Exit 0 = held on everything explored; exit 1 + VIOLATION line = violation; exit 2 = harness error. Besides comparing what an operation returns with the reference model, the checks C02-C08, C13, C17 and C19 put returned frames through a latent-state battery (harness/checks/battery.go): a fixed list of follow-up programs run on the frame and on a frame rebuilt with New from its observed content, which must agree (exhaustive over the stated list; see DESIGN.md 12.7, round 11).",
     }
     json.dump(m, open(os.path.join(HERE, "MANIFEST.json"), "w"), indent=1)
     try:
